@@ -6,6 +6,7 @@ use std::panic::{catch_unwind, AssertUnwindSafe};
 mod autdump;
 mod e_automata;
 mod e_charset;
+mod e_display;
 mod e_literal;
 mod e_looprange;
 mod e_merge;
@@ -39,6 +40,8 @@ fn main() {
             "looprange" => e_looprange::run(&toks),
             "strconv" => e_strconv::run(&toks),
             "strsearch" => e_strsearch::run(&toks),
+            // informational engine (Display implementations): used by bin/displaycheck only, by no property
+            "display" => e_display::run(&toks),
             _ => panic!("unknown engine"),
         }));
         let s = match r {
